@@ -19,6 +19,9 @@ Chess/FenPlacement.vos Chess/FenPlacement.vok Chess/FenPlacement.required_vos: C
 Chess/FenProofs.vo Chess/FenProofs.glob Chess/FenProofs.v.beautified Chess/FenProofs.required_vo: Chess/FenProofs.v Chess/Rules.vo Chess/Fen.vo Chess/TextProofs.vo Chess/FenPlacement.vo Base/NIter.vo
 Chess/FenProofs.vio: Chess/FenProofs.v Chess/Rules.vio Chess/Fen.vio Chess/TextProofs.vio Chess/FenPlacement.vio Base/NIter.vio
 Chess/FenProofs.vos Chess/FenProofs.vok Chess/FenProofs.required_vos: Chess/FenProofs.v Chess/Rules.vos Chess/Fen.vos Chess/TextProofs.vos Chess/FenPlacement.vos Base/NIter.vos
+Chess/GameInv.vo Chess/GameInv.glob Chess/GameInv.v.beautified Chess/GameInv.required_vo: Chess/GameInv.v Chess/Rules.vo Chess/RulesFacts.vo Chess/ValidStep.vo Chess/ValidStepEp.vo Base/Geom.vo Base/FileRank.vo Base/Bits.vo
+Chess/GameInv.vio: Chess/GameInv.v Chess/Rules.vio Chess/RulesFacts.vio Chess/ValidStep.vio Chess/ValidStepEp.vio Base/Geom.vio Base/FileRank.vio Base/Bits.vio
+Chess/GameInv.vos Chess/GameInv.vok Chess/GameInv.required_vos: Chess/GameInv.v Chess/Rules.vos Chess/RulesFacts.vos Chess/ValidStep.vos Chess/ValidStepEp.vos Base/Geom.vos Base/FileRank.vos Base/Bits.vos
 Chess/History.vo Chess/History.glob Chess/History.v.beautified Chess/History.required_vo: Chess/History.v Chess/Rules.vo
 Chess/History.vio: Chess/History.v Chess/Rules.vio
 Chess/History.vos Chess/History.vok Chess/History.required_vos: Chess/History.v Chess/Rules.vos
@@ -76,6 +79,9 @@ Engine/EvalCacheProofs.vos Engine/EvalCacheProofs.vok Engine/EvalCacheProofs.req
 Engine/Game.vo Engine/Game.glob Engine/Game.v.beautified Engine/Game.required_vo: Engine/Game.v 
 Engine/Game.vio: Engine/Game.v 
 Engine/Game.vos Engine/Game.vok Engine/Game.required_vos: Engine/Game.v 
+Engine/GameRefine.vo Engine/GameRefine.glob Engine/GameRefine.v.beautified Engine/GameRefine.required_vo: Engine/GameRefine.v Chess/Rules.vo Chess/History.vo Chess/HistoryKeys.vo Chess/ValidStep.vo Chess/GameInv.vo Engine/PositionRep.vo Engine/RepAbs.vo Engine/RepRefine.vo Engine/RepRefineLegal.vo Engine/KeyScratch.vo Engine/KeyScratchMove.vo Engine/KeyScratchInit.vo Engine/HistoryRefine.vo Engine/PolyglotProofs.vo Engine/RepProofs.vo Engine/RepRoundTrip.vo Engine/RepRoundTripLegal.vo
+Engine/GameRefine.vio: Engine/GameRefine.v Chess/Rules.vio Chess/History.vio Chess/HistoryKeys.vio Chess/ValidStep.vio Chess/GameInv.vio Engine/PositionRep.vio Engine/RepAbs.vio Engine/RepRefine.vio Engine/RepRefineLegal.vio Engine/KeyScratch.vio Engine/KeyScratchMove.vio Engine/KeyScratchInit.vio Engine/HistoryRefine.vio Engine/PolyglotProofs.vio Engine/RepProofs.vio Engine/RepRoundTrip.vio Engine/RepRoundTripLegal.vio
+Engine/GameRefine.vos Engine/GameRefine.vok Engine/GameRefine.required_vos: Engine/GameRefine.v Chess/Rules.vos Chess/History.vos Chess/HistoryKeys.vos Chess/ValidStep.vos Chess/GameInv.vos Engine/PositionRep.vos Engine/RepAbs.vos Engine/RepRefine.vos Engine/RepRefineLegal.vos Engine/KeyScratch.vos Engine/KeyScratchMove.vos Engine/KeyScratchInit.vos Engine/HistoryRefine.vos Engine/PolyglotProofs.vos Engine/RepProofs.vos Engine/RepRoundTrip.vos Engine/RepRoundTripLegal.vos
 Engine/GoParse.vo Engine/GoParse.glob Engine/GoParse.v.beautified Engine/GoParse.required_vo: Engine/GoParse.v 
 Engine/GoParse.vio: Engine/GoParse.v 
 Engine/GoParse.vos Engine/GoParse.vok Engine/GoParse.required_vos: Engine/GoParse.v 
@@ -259,24 +265,24 @@ Props/C12Tables.vos Props/C12Tables.vok Props/C12Tables.required_vos: Props/C12T
 Props/Properties_C01.vo Props/Properties_C01.glob Props/Properties_C01.v.beautified Props/Properties_C01.required_vo: Props/Properties_C01.v Chess/Rules.vo Chess/RulesFacts.vo
 Props/Properties_C01.vio: Props/Properties_C01.v Chess/Rules.vio Chess/RulesFacts.vio
 Props/Properties_C01.vos Props/Properties_C01.vok Props/Properties_C01.required_vos: Props/Properties_C01.v Chess/Rules.vos Chess/RulesFacts.vos
-Props/Properties_C02.vo Props/Properties_C02.glob Props/Properties_C02.v.beautified Props/Properties_C02.required_vo: Props/Properties_C02.v Chess/Rules.vo Engine/PositionRep.vo Engine/RepAbs.vo Engine/RepRefine.vo Engine/RepRefineLegal.vo Engine/RepRoundTripNormal.vo Base/NIter.vo
-Props/Properties_C02.vio: Props/Properties_C02.v Chess/Rules.vio Engine/PositionRep.vio Engine/RepAbs.vio Engine/RepRefine.vio Engine/RepRefineLegal.vio Engine/RepRoundTripNormal.vio Base/NIter.vio
-Props/Properties_C02.vos Props/Properties_C02.vok Props/Properties_C02.required_vos: Props/Properties_C02.v Chess/Rules.vos Engine/PositionRep.vos Engine/RepAbs.vos Engine/RepRefine.vos Engine/RepRefineLegal.vos Engine/RepRoundTripNormal.vos Base/NIter.vos
-Props/Properties_C03.vo Props/Properties_C03.glob Props/Properties_C03.v.beautified Props/Properties_C03.required_vo: Props/Properties_C03.v Engine/PositionRep.vo Engine/RepAbs.vo Engine/RepProofs.vo Engine/RepRoundTrip.vo Engine/RepRoundTripNormal.vo Engine/Encoding.vo Engine/RepRefine.vo Engine/RepRefineLegal.vo Engine/RepRoundTripLegal.vo Chess/Rules.vo
-Props/Properties_C03.vio: Props/Properties_C03.v Engine/PositionRep.vio Engine/RepAbs.vio Engine/RepProofs.vio Engine/RepRoundTrip.vio Engine/RepRoundTripNormal.vio Engine/Encoding.vio Engine/RepRefine.vio Engine/RepRefineLegal.vio Engine/RepRoundTripLegal.vio Chess/Rules.vio
-Props/Properties_C03.vos Props/Properties_C03.vok Props/Properties_C03.required_vos: Props/Properties_C03.v Engine/PositionRep.vos Engine/RepAbs.vos Engine/RepProofs.vos Engine/RepRoundTrip.vos Engine/RepRoundTripNormal.vos Engine/Encoding.vos Engine/RepRefine.vos Engine/RepRefineLegal.vos Engine/RepRoundTripLegal.vos Chess/Rules.vos
-Props/Properties_C04.vo Props/Properties_C04.glob Props/Properties_C04.v.beautified Props/Properties_C04.required_vo: Props/Properties_C04.v Engine/PositionRep.vo Engine/RepAbs.vo Engine/RepProofs.vo Engine/RepRefine.vo Engine/RepRefineLegal.vo Engine/RepRoundTrip.vo Engine/KeyScratch.vo Engine/KeyScratchMove.vo Engine/KeyScratchInit.vo Chess/Rules.vo
-Props/Properties_C04.vio: Props/Properties_C04.v Engine/PositionRep.vio Engine/RepAbs.vio Engine/RepProofs.vio Engine/RepRefine.vio Engine/RepRefineLegal.vio Engine/RepRoundTrip.vio Engine/KeyScratch.vio Engine/KeyScratchMove.vio Engine/KeyScratchInit.vio Chess/Rules.vio
-Props/Properties_C04.vos Props/Properties_C04.vok Props/Properties_C04.required_vos: Props/Properties_C04.v Engine/PositionRep.vos Engine/RepAbs.vos Engine/RepProofs.vos Engine/RepRefine.vos Engine/RepRefineLegal.vos Engine/RepRoundTrip.vos Engine/KeyScratch.vos Engine/KeyScratchMove.vos Engine/KeyScratchInit.vos Chess/Rules.vos
+Props/Properties_C02.vo Props/Properties_C02.glob Props/Properties_C02.v.beautified Props/Properties_C02.required_vo: Props/Properties_C02.v Chess/Rules.vo Engine/PositionRep.vo Engine/RepAbs.vo Engine/RepRefine.vo Engine/RepRefineLegal.vo Engine/RepRoundTripNormal.vo Base/NIter.vo Chess/History.vo Chess/HistoryKeys.vo Chess/ValidStep.vo Chess/GameInv.vo Engine/KeyScratchInit.vo Engine/HistoryRefine.vo Engine/GameRefine.vo
+Props/Properties_C02.vio: Props/Properties_C02.v Chess/Rules.vio Engine/PositionRep.vio Engine/RepAbs.vio Engine/RepRefine.vio Engine/RepRefineLegal.vio Engine/RepRoundTripNormal.vio Base/NIter.vio Chess/History.vio Chess/HistoryKeys.vio Chess/ValidStep.vio Chess/GameInv.vio Engine/KeyScratchInit.vio Engine/HistoryRefine.vio Engine/GameRefine.vio
+Props/Properties_C02.vos Props/Properties_C02.vok Props/Properties_C02.required_vos: Props/Properties_C02.v Chess/Rules.vos Engine/PositionRep.vos Engine/RepAbs.vos Engine/RepRefine.vos Engine/RepRefineLegal.vos Engine/RepRoundTripNormal.vos Base/NIter.vos Chess/History.vos Chess/HistoryKeys.vos Chess/ValidStep.vos Chess/GameInv.vos Engine/KeyScratchInit.vos Engine/HistoryRefine.vos Engine/GameRefine.vos
+Props/Properties_C03.vo Props/Properties_C03.glob Props/Properties_C03.v.beautified Props/Properties_C03.required_vo: Props/Properties_C03.v Engine/PositionRep.vo Engine/RepAbs.vo Engine/RepProofs.vo Engine/RepRoundTrip.vo Engine/RepRoundTripNormal.vo Engine/Encoding.vo Engine/RepRefine.vo Engine/RepRefineLegal.vo Engine/RepRoundTripLegal.vo Chess/Rules.vo Chess/ValidStep.vo Chess/GameInv.vo Engine/KeyScratchInit.vo Engine/GameRefine.vo
+Props/Properties_C03.vio: Props/Properties_C03.v Engine/PositionRep.vio Engine/RepAbs.vio Engine/RepProofs.vio Engine/RepRoundTrip.vio Engine/RepRoundTripNormal.vio Engine/Encoding.vio Engine/RepRefine.vio Engine/RepRefineLegal.vio Engine/RepRoundTripLegal.vio Chess/Rules.vio Chess/ValidStep.vio Chess/GameInv.vio Engine/KeyScratchInit.vio Engine/GameRefine.vio
+Props/Properties_C03.vos Props/Properties_C03.vok Props/Properties_C03.required_vos: Props/Properties_C03.v Engine/PositionRep.vos Engine/RepAbs.vos Engine/RepProofs.vos Engine/RepRoundTrip.vos Engine/RepRoundTripNormal.vos Engine/Encoding.vos Engine/RepRefine.vos Engine/RepRefineLegal.vos Engine/RepRoundTripLegal.vos Chess/Rules.vos Chess/ValidStep.vos Chess/GameInv.vos Engine/KeyScratchInit.vos Engine/GameRefine.vos
+Props/Properties_C04.vo Props/Properties_C04.glob Props/Properties_C04.v.beautified Props/Properties_C04.required_vo: Props/Properties_C04.v Engine/PositionRep.vo Engine/RepAbs.vo Engine/RepProofs.vo Engine/RepRefine.vo Engine/RepRefineLegal.vo Engine/RepRoundTrip.vo Engine/KeyScratch.vo Engine/KeyScratchMove.vo Engine/KeyScratchInit.vo Chess/Rules.vo Chess/History.vo Chess/HistoryKeys.vo Chess/ValidStep.vo Chess/GameInv.vo Engine/HistoryRefine.vo Engine/GameRefine.vo
+Props/Properties_C04.vio: Props/Properties_C04.v Engine/PositionRep.vio Engine/RepAbs.vio Engine/RepProofs.vio Engine/RepRefine.vio Engine/RepRefineLegal.vio Engine/RepRoundTrip.vio Engine/KeyScratch.vio Engine/KeyScratchMove.vio Engine/KeyScratchInit.vio Chess/Rules.vio Chess/History.vio Chess/HistoryKeys.vio Chess/ValidStep.vio Chess/GameInv.vio Engine/HistoryRefine.vio Engine/GameRefine.vio
+Props/Properties_C04.vos Props/Properties_C04.vok Props/Properties_C04.required_vos: Props/Properties_C04.v Engine/PositionRep.vos Engine/RepAbs.vos Engine/RepProofs.vos Engine/RepRefine.vos Engine/RepRefineLegal.vos Engine/RepRoundTrip.vos Engine/KeyScratch.vos Engine/KeyScratchMove.vos Engine/KeyScratchInit.vos Chess/Rules.vos Chess/History.vos Chess/HistoryKeys.vos Chess/ValidStep.vos Chess/GameInv.vos Engine/HistoryRefine.vos Engine/GameRefine.vos
 Props/Properties_C05.vo Props/Properties_C05.glob Props/Properties_C05.v.beautified Props/Properties_C05.required_vo: Props/Properties_C05.v Gen/Consts.vo Engine/SearchDriver.vo Engine/SearchDriverProofs.vo Chess/Rules.vo Engine/SearchNode.vo Engine/SearchNodeProofs.vo
 Props/Properties_C05.vio: Props/Properties_C05.v Gen/Consts.vio Engine/SearchDriver.vio Engine/SearchDriverProofs.vio Chess/Rules.vio Engine/SearchNode.vio Engine/SearchNodeProofs.vio
 Props/Properties_C05.vos Props/Properties_C05.vok Props/Properties_C05.required_vos: Props/Properties_C05.v Gen/Consts.vos Engine/SearchDriver.vos Engine/SearchDriverProofs.vos Chess/Rules.vos Engine/SearchNode.vos Engine/SearchNodeProofs.vos
 Props/Properties_C06.vo Props/Properties_C06.glob Props/Properties_C06.v.beautified Props/Properties_C06.required_vo: Props/Properties_C06.v Gen/Layout.vo Gen/LayoutAst.vo Engine/StopProtocol.vo Engine/StopProofs.vo
 Props/Properties_C06.vio: Props/Properties_C06.v Gen/Layout.vio Gen/LayoutAst.vio Engine/StopProtocol.vio Engine/StopProofs.vio
 Props/Properties_C06.vos Props/Properties_C06.vok Props/Properties_C06.required_vos: Props/Properties_C06.v Gen/Layout.vos Gen/LayoutAst.vos Engine/StopProtocol.vos Engine/StopProofs.vos
-Props/Properties_C07.vo Props/Properties_C07.glob Props/Properties_C07.v.beautified Props/Properties_C07.required_vo: Props/Properties_C07.v Chess/Rules.vo Chess/History.vo Chess/RulesFacts.vo Chess/HistoryKeys.vo Engine/PositionRep.vo Engine/RepAbs.vo Engine/RepRefineLegal.vo Engine/KeyScratchInit.vo Engine/HistoryRefine.vo
-Props/Properties_C07.vio: Props/Properties_C07.v Chess/Rules.vio Chess/History.vio Chess/RulesFacts.vio Chess/HistoryKeys.vio Engine/PositionRep.vio Engine/RepAbs.vio Engine/RepRefineLegal.vio Engine/KeyScratchInit.vio Engine/HistoryRefine.vio
-Props/Properties_C07.vos Props/Properties_C07.vok Props/Properties_C07.required_vos: Props/Properties_C07.v Chess/Rules.vos Chess/History.vos Chess/RulesFacts.vos Chess/HistoryKeys.vos Engine/PositionRep.vos Engine/RepAbs.vos Engine/RepRefineLegal.vos Engine/KeyScratchInit.vos Engine/HistoryRefine.vos
+Props/Properties_C07.vo Props/Properties_C07.glob Props/Properties_C07.v.beautified Props/Properties_C07.required_vo: Props/Properties_C07.v Chess/Rules.vo Chess/History.vo Chess/RulesFacts.vo Chess/HistoryKeys.vo Engine/PositionRep.vo Engine/RepAbs.vo Engine/RepRefineLegal.vo Engine/KeyScratchInit.vo Engine/HistoryRefine.vo Chess/ValidStep.vo Chess/GameInv.vo Engine/GameRefine.vo
+Props/Properties_C07.vio: Props/Properties_C07.v Chess/Rules.vio Chess/History.vio Chess/RulesFacts.vio Chess/HistoryKeys.vio Engine/PositionRep.vio Engine/RepAbs.vio Engine/RepRefineLegal.vio Engine/KeyScratchInit.vio Engine/HistoryRefine.vio Chess/ValidStep.vio Chess/GameInv.vio Engine/GameRefine.vio
+Props/Properties_C07.vos Props/Properties_C07.vok Props/Properties_C07.required_vos: Props/Properties_C07.v Chess/Rules.vos Chess/History.vos Chess/RulesFacts.vos Chess/HistoryKeys.vos Engine/PositionRep.vos Engine/RepAbs.vos Engine/RepRefineLegal.vos Engine/KeyScratchInit.vos Engine/HistoryRefine.vos Chess/ValidStep.vos Chess/GameInv.vos Engine/GameRefine.vos
 Props/Properties_C08.vo Props/Properties_C08.glob Props/Properties_C08.v.beautified Props/Properties_C08.required_vo: Props/Properties_C08.v Gen/Consts.vo Engine/SearchDriver.vo Engine/MateScore.vo
 Props/Properties_C08.vio: Props/Properties_C08.v Gen/Consts.vio Engine/SearchDriver.vio Engine/MateScore.vio
 Props/Properties_C08.vos Props/Properties_C08.vok Props/Properties_C08.required_vos: Props/Properties_C08.v Gen/Consts.vos Engine/SearchDriver.vos Engine/MateScore.vos
